@@ -122,7 +122,7 @@ Perts(x, tol) ==
      d \in 1..Len(x.edges), p \in 1..4,
      t \in (IF tol.kind = "default" THEN {<<1, 2>>, <<2, 1>>, <<1, 1024>>}
             ELSE IF tol.kind = "abs" THEN {} ELSE {<<1, 2>>, <<1, 1>>, <<2, 1>>})}
-PertOK(x, pert) == pert.kind = "none" \/ pert.pos \in Positions(x.edges[pert.axis])
+PertOK(x, pert) == IF pert.kind = "none" THEN TRUE ELSE pert.pos \in Positions(x.edges[pert.axis])
 IsTolHist(x) == x.oor = RI(0) /\ x.bins = IotaB(x.edges, 1, 0, 0)
 AddTol == Op /\ IsTolHist(a) /\ \E tol \in TolKinds : \E pert \in Perts(a, tol) :
   /\ PertOK(a, pert)
